@@ -28,6 +28,7 @@ META = {
 }
 
 CRS = "epsg:3857"
+TOLS = [F(1, 4), F(0.01), F(1e-3), F(1e-4), TOL6, F(0)]
 
 
 def _import():
@@ -323,7 +324,7 @@ def run(R: Run):
 
         l, r = span(rx)
         b, t = span(ry)
-        tol = rng.choice([TOL2, TOL2, TOL6, F(1, 128), F(0), F(1, 4)])
+        tol = rng.choice(TOLS + [TOL2, F(1, 128)])
         if axis_exact(l, r, rx, None if sn is None else sn[0]) and axis_exact(b, t, ry, None if sn is None else sn[1]):
             call((l, b, r, t), tight, None, rx if scalar else (rx, ry), anch, tol, "rnd-res", True, F(0))
         else:
@@ -340,7 +341,7 @@ def run(R: Run):
         l = (F(rng.randint(-2**20, 2**20)) + rng.choice([0, 0, 1, -1]) * F(rng.randint(0, 2**fb), 2**fb)) * px
         b = (F(rng.randint(-2**20, 2**20)) + rng.choice([0, 0, 1, -1]) * F(rng.randint(0, 2**fb), 2**fb)) * py
         r, t = l + nx * px, b + ny * py
-        tol = rng.choice([TOL2, TOL2, F(1, 128), F(0)])
+        tol = rng.choice(TOLS + [TOL2, F(1, 128)])
         if rng.random() < 0.3:
             n = nx if (r - l) > (t - b) else ny
             rr = (r - l) / n if (r - l) > (t - b) else (t - b) / n
@@ -370,6 +371,70 @@ def run(R: Run):
         call(tuple(F(v) for v in bb), tight, shape, res, anch, tol, "edge-case", True, F(0))
 
     # ---------------- from_geopolygon (exact): reduces to the bounding box of the vertices
+    def poly_case(pts, rx, ry, res, align, shape, tight, anch, tol, mode):
+        xs, ys = [p[0] for p in pts], [p[1] for p in pts]
+        bb = (min(xs), min(ys), max(xs), max(ys))
+        if align is not None and align != (0, 0):
+            sn = None if tight else (align[0] / abs(rx), align[1] / abs(ry))
+        elif align is not None:
+            sn = None if tight else (F(0), F(0))
+        else:
+            sn = anch.snap(tight)
+        if shape is None:
+            ok = axis_exact(bb[0], bb[2], rx, None if sn is None else sn[0]) and axis_exact(bb[1], bb[3], ry, None if sn is None else sn[1])
+        else:
+            px, py = (bb[2] - bb[0]) / shape[1], (bb[3] - bb[1]) / shape[0]
+            ok = isx(px) and isx(py) and axis_exact(bb[0], bb[2], px, None if sn is None else sn[0]) and axis_exact(
+                bb[1], bb[3], -py, None if sn is None else sn[1])
+        if not ok or not all(isx(v) for q in pts for v in q):
+            R.count("poly:skipped-inexact")
+            return
+        out = []
+        kw = dict(shape=shape, tight=tight, tol=float(tol))
+        res_py = None if res is None else resxy_(float(res[0]), float(res[1]))
+
+        def fpoly():
+            poly = geom.polygon([(float(x), float(y)) for x, y in pts] + [(float(pts[0][0]), float(pts[0][1]))], CRS)
+            kw2 = dict(kw, anchor=anch.py(GB, xy_))
+            if align is not None:
+                kw2["align"] = xy_(float(align[0]), float(align[1]))
+            gb = GeoBox.from_geopolygon(poly, res_py, **kw2)
+            out.append((gb, poly))
+            return gb_s(gb)
+
+        line = (f"c08 poly {list_s(pts, lambda q: frac_s(q[0]) + ';' + frac_s(q[1]))} {res_tok(res)} "
+                f"{'N' if align is None else frac_s(align[0]) + ';' + frac_s(align[1])} {shape_tok(shape)} {bool_s(tight)} {anch.tok()} {frac_s(tol)}")
+        R.corr(line, fpoly, sig=f"poly|{mode}|{'float' if sn is None else 'snap'}")
+        case = {"fn": "GeoBox.from_geopolygon", "line": line}
+        # two-sided: exact re-computation on the vertex bounds with the SAME options (incl. tol)
+        want = ref_from_bbox(bb, tight, shape, res, sn, tol)
+        if out or want != "ERR":
+            got = "ERR" if not out else (int(out[0][0].shape[0]), int(out[0][0].shape[1]), [F(float(v)) for v in tuple(out[0][0].affine)[:6]])
+            R.oracle(got == want, "from-geopolygon-differs-from-exact-recomputation", case,
+                     f"from_geopolygon = {gb_s(out[0][0]) if out else 'raised'} but exact arithmetic on the vertex bounds gives "
+                     f"{want if want == 'ERR' else (want[0], want[1], [float(v) for v in want[2]])}", sig="poly-2sided")
+        if out:
+            gb, poly = out[0]
+            # equivalence: the same options through from_bbox on the polygon's bounding box
+            if align is None or align == (0, 0):
+                an = GB.AnchorEnum.EDGE if align is not None else anch.py(GB, xy_)
+            else:
+                an = xy_(float(align[0] / abs(rx)), float(align[1] / abs(ry)))
+            eq = guarded(lambda: gb_s(GeoBox.from_bbox(poly.boundingbox, resolution=res_py, anchor=an, **kw)))
+            R.oracle(eq == gb_s(gb), "from-geopolygon-differs-from-from-bbox", case,
+                     f"from_geopolygon = {gb_s(gb)} but from_bbox(poly.boundingbox, same options) = {eq}", sig="poly-equiv")
+            if shape is None:
+                bbox_oracle(R, gb, bb, (rx, ry), sn, tol, F(0), case, "from-geopolygon")
+                A, (ny, nx) = gb.affine, gb.shape
+                xlo, xhi = sorted([F(A.c), F(A.c) + nx * F(A.a)])
+                ylo, yhi = sorted([F(A.f), F(A.f) + ny * F(A.e)])
+                inside = all(xlo - tol * abs(rx) <= x <= xhi + tol * abs(rx) and ylo - tol * abs(ry) <= y <= yhi + tol * abs(ry)
+                             for x, y in pts)
+                R.oracle(inside, "from-geopolygon-vertex-outside", case, f"extent x[{float(xlo)},{float(xhi)}] y[{float(ylo)},{float(yhi)}]",
+                         sig="poly-covers")
+            else:
+                shape_oracle(R, gb, bb, shape, sn, F(0), case, "from-geopolygon-shape")
+
     for _ in range(R.pick(800, 8000)):
         rx = F(rng.choice([-1, 1]) * rng.choice([1, 3, 10, 30])) * F(2) ** rng.randint(-6, 4)
         ry = F(rng.choice([-1, 1]) * rng.choice([1, 3, 10, 30])) * F(2) ** rng.randint(-6, 4)
@@ -393,52 +458,101 @@ def run(R: Run):
             w, hgt = shape[1] * abs(rx), shape[0] * abs(ry)
             pts = [(x0, y0), (x0 + w, y0 + hgt)] + [(x0 + F(rng.randint(0, 4), 4) * w, y0 + F(rng.randint(0, 4), 4) * hgt)
                                                      for _ in range(k - 2)]
-        xs, ys = [p[0] for p in pts], [p[1] for p in pts]
-        bb = (min(xs), min(ys), max(xs), max(ys))
-        if align is not None and align != (0, 0):
-            sn = None if tight else (align[0] / abs(rx), align[1] / abs(ry))
-        elif align is not None:
-            sn = None if tight else (F(0), F(0))
-        else:
-            sn = anch.snap(tight)
-        if shape is None:
-            ok = axis_exact(bb[0], bb[2], rx, None if sn is None else sn[0]) and axis_exact(bb[1], bb[3], ry, None if sn is None else sn[1])
-        else:
-            px, py = (bb[2] - bb[0]) / shape[1], (bb[3] - bb[1]) / shape[0]
-            ok = isx(px) and isx(py) and axis_exact(bb[0], bb[2], px, None if sn is None else sn[0]) and axis_exact(
-                bb[1], bb[3], -py, None if sn is None else sn[1])
-        if not ok:
-            R.count("poly:skipped-inexact")
+        tol = rng.choice(TOLS)
+        poly_case(pts, rx, ry, res, align, shape, tight, anch, tol, mode)
+
+    # ---------------- full option matrix through every forwarding entry point
+    # from_bbox, from_geopolygon (-> from_bbox) and zoom_to(resolution=) (-> from_bbox(tight=True)) are driven with
+    # every tolerance (also non-default), every anchor kind, both signs per axis, and region edges placed
+    # tol*{0.5, 2} and 0.01*{0.5, 2} of a pixel on either side of a grid line (quotient construction with
+    # power-of-two pixels, so every float operation is exact); judged by the model correspondence, the two-sided
+    # exact re-computation and the equivalence from_geopolygon(poly, ..) == from_bbox(poly.boundingbox, ..)
+    m_anchors = [Anch("s", "default"), Anch("s", "center"), Anch("e", "floating"), Anch("n", F(1, 4)), Anch("x", (F(0), F(1, 2)))]
+
+    def edge_q(tol, k, force=None):
+        """post-anchor quotient k + delta, delta in {0, +-tol*0.5, +-tol*2, +-0.005, +-0.02} pixels"""
+        ds = [0.0]
+        for m in (0.5, 2.0):
+            ds += [float(tol) * m, -float(tol) * m, 0.01 * m, -0.01 * m]
+        d = ds[force % len(ds)] if force is not None else rng.choice(ds)
+        return F(float(k) + d)
+
+    n_matrix = 0
+    for tol in TOLS:
+        for anch in m_anchors:
+            for tight in (False, True):
+                if tight and anch.val not in ("default", "center"):
+                    continue
+                sn = anch.snap(tight)
+                for sweep in range(R.pick(36, 144)):      # 36 = 4 edges x 9 offsets: one full systematic sweep
+                    rx = F(rng.choice([-1, 1])) * F(2) ** rng.randint(-5, 4)
+                    ry = F(rng.choice([-1, 1])) * F(2) ** rng.randint(-5, 4)
+                    kx0, ky0 = rng.randint(-30, 30), rng.randint(-30, 30)
+                    kx1, ky1 = kx0 + rng.randint(1, 12), ky0 + rng.randint(1, 12)
+                    edge = sweep % 4          # the edge swept systematically through the nine offsets
+                    us = [edge_q(tol, k, force=(sweep // 4) if i == edge else None) for i, k in enumerate((kx0, ky0, kx1, ky1))]
+                    ax, ay = (F(0), F(0)) if sn is None else sn
+                    l, b, r, t = (us[0] + ax) * abs(rx), (us[1] + ay) * abs(ry), (us[2] + ax) * abs(rx), (us[3] + ay) * abs(ry)
+                    if not (axis_exact(l, r, rx, None if sn is None else sn[0]) and axis_exact(b, t, ry, None if sn is None else sn[1])):
+                        R.count("matrix:skipped-inexact")
+                        continue
+                    n_matrix += 1
+                    scalar = rx > 0 and ry == -rx
+                    call((l, b, r, t), tight, None, rx if scalar else (rx, ry), anch, tol, "matrix", True, F(0))
+                    # polygon with exactly these bounds (each side touched by one vertex)
+                    pts = rng.choice([[(l, b), (r, b), (r, t)], [(l, b), (r, t), (l, t)], [(l, t), (r, b), (r, t), (l, b)]])
+                    if all(isx(v) for q in pts for v in q):
+                        poly_case(pts, rx, ry, (rx, ry), None, None, tight, anch, tol, "matrix")
+                        if anch.kind == "x" or anch.kind == "n":
+                            # the deprecated align= spelling of the same anchor
+                            poly_case(pts, rx, ry, (rx, ry), (sn[0] * abs(rx), sn[1] * abs(ry)) if sn else (F(0), F(0)), None,
+                                      tight, Anch("s", "default"), tol, "matrix-align")
+                    # shape-driven with the same corner: span is an exact multiple of the pixel
+                    nxs, nys = rng.randint(1, 40), rng.randint(1, 40)
+                    r2, t2 = l + nxs * abs(rx), b + nys * abs(ry)
+                    if axis_exact(l, r2, abs(rx), None if sn is None else sn[0]) and axis_exact(b, t2, -abs(ry), None if sn is None else sn[1]):
+                        call((l, b, r2, t2), tight, (nys, nxs), None, anch, tol, "matrix-shape", True, F(0))
+                        pts2 = [(l, b), (r2, t2), (l, t2)]
+                        poly_case(pts2, rx, ry, None, None, (nys, nxs), tight, anch, tol, "matrix-shape")
+    R.count("matrix:cases", n_matrix)
+
+    # zoom_to(resolution=) forwards to from_bbox(self.boundingbox, resolution=, tight=True) with the default tol
+    from affine import Affine
+    for _ in range(R.pick(1500, 15000)):
+        rx = F(rng.choice([-1, 1])) * F(2) ** rng.randint(-5, 4)
+        ry = F(rng.choice([-1, 1])) * F(2) ** rng.randint(-5, 4)
+        nx0, ny0 = 2 ** rng.randint(0, 8), 2 ** rng.randint(0, 8)
+        ux, uy = edge_q(TOL2, rng.randint(1, 40)), edge_q(TOL2, rng.randint(1, 40))      # new span in new pixels
+        a0, e0 = ux * abs(rx) / nx0, -(uy * abs(ry) / ny0)
+        l0, t0 = F(rng.randint(-64, 64)) * abs(rx), F(rng.randint(-64, 64)) * abs(ry)
+        if not all(isx(v) for v in (a0, e0, l0 + nx0 * a0, t0 + ny0 * e0)):
             continue
-        tol = rng.choice([TOL2, F(1, 128), F(0)])
-        out = []
+        src = GeoBox((ny0, nx0), Affine(float(a0), 0, float(l0), 0, float(e0), float(t0)), CRS)
+        bbr = src.boundingbox
+        bb = tuple(F(float(v)) for v in (bbr.left, bbr.bottom, bbr.right, bbr.top))
+        if not (axis_exact(bb[0], bb[2], rx, None) and axis_exact(bb[1], bb[3], ry, None)):
+            R.count("zoom:skipped-inexact")
+            continue
+        zo = []
 
-        def fpoly():
-            poly = geom.polygon([(float(x), float(y)) for x, y in pts] + [(float(pts[0][0]), float(pts[0][1]))], CRS)
-            kw = dict(shape=shape, tight=tight, anchor=anch.py(GB, xy_), tol=float(tol))
-            if align is not None:
-                kw["align"] = xy_(float(align[0]), float(align[1]))
-            gb = GeoBox.from_geopolygon(poly, None if res is None else resxy_(float(res[0]), float(res[1])), **kw)
-            out.append((gb, poly))
-            return gb_s(gb)
+        def fz():
+            g = src.zoom_to(resolution=resxy_(float(rx), float(ry)))
+            zo.append(g)
+            return gb_s(g)
 
-        line = (f"c08 poly {list_s(pts, lambda q: frac_s(q[0]) + ';' + frac_s(q[1]))} {res_tok(res)} "
-                f"{'N' if align is None else frac_s(align[0]) + ';' + frac_s(align[1])} {shape_tok(shape)} {bool_s(tight)} {anch.tok()} {frac_s(tol)}")
-        R.corr(line, fpoly, sig=f"poly|{mode}|{'float' if sn is None else 'snap'}")
-        if out:
-            gb, poly = out[0]
-            case = {"fn": "GeoBox.from_geopolygon", "line": line}
-            if shape is None:
-                bbox_oracle(R, gb, bb, (rx, ry), sn, tol, F(0), case, "from-geopolygon")
-                A, (ny, nx) = gb.affine, gb.shape
-                xlo, xhi = sorted([F(A.c), F(A.c) + nx * F(A.a)])
-                ylo, yhi = sorted([F(A.f), F(A.f) + ny * F(A.e)])
-                inside = all(xlo - tol * abs(rx) <= x <= xhi + tol * abs(rx) and ylo - tol * abs(ry) <= y <= yhi + tol * abs(ry)
-                             for x, y in pts)
-                R.oracle(inside, "from-geopolygon-vertex-outside", case, f"extent x[{float(xlo)},{float(xhi)}] y[{float(ylo)},{float(yhi)}]",
-                         sig="poly-covers")
-            else:
-                shape_oracle(R, gb, bb, shape, sn, F(0), case, "from-geopolygon-shape")
+        line = (f"c08 bbox {frac_s(bb[0])} {frac_s(bb[1])} {frac_s(bb[2])} {frac_s(bb[3])} T N {res_tok((rx, ry))} s:default {frac_s(TOL2)}")
+        R.corr(line, fz, sig="zoom-to-resolution")
+        if zo:
+            case = {"fn": "GeoBox.zoom_to(resolution=)", "line": line, "src": gb_s(src)}
+            want = ref_from_bbox(bb, True, None, (rx, ry), None, TOL2)
+            got = (int(zo[0].shape[0]), int(zo[0].shape[1]), [F(float(v)) for v in tuple(zo[0].affine)[:6]])
+            R.oracle(got == want, "zoom-to-resolution-differs-from-exact-recomputation", case,
+                     f"zoom_to(resolution=) = {gb_s(zo[0])} but from_bbox(boundingbox, tight=True, tol=0.01) in exact arithmetic gives "
+                     f"{want if want == 'ERR' else (want[0], want[1], [float(v) for v in want[2]])}", sig="zoom-2sided")
+            eq = guarded(lambda: gb_s(GeoBox.from_bbox(bbr, resolution=resxy_(float(rx), float(ry)), tight=True)))
+            R.oracle(eq == gb_s(zo[0]), "zoom-to-resolution-differs-from-from-bbox", case,
+                     f"zoom_to(resolution=) = {gb_s(zo[0])} but from_bbox(boundingbox, resolution=, tight=True) = {eq}", sig="zoom-equiv")
+            bbox_oracle(R, zo[0], bb, (rx, ry), None, TOL2, F(0), case, "zoom-to-resolution")
 
     # ---------------- float stream: arbitrary doubles, Fraction oracle only
     for _ in range(R.pick(3000, 30000)):
